@@ -714,6 +714,26 @@ func (en *Engine) load(st *State, addr Val, t types.Type) Val {
 		}
 	}
 	db := directBase(addr)
+	if g, ok := db.(*GlobalV); ok && !hasSymbolicIndex(addr) && en.hasSubEntries(st, addr) {
+		// whole-aggregate read of an effectively-constant package variable: snapshot of its (constant) leaves
+		_ = g
+		if stt, ok := t.Underlying().(*types.Struct); ok {
+			names := make([]string, stt.NumFields())
+			fields := map[string]Val{}
+			for i := 0; i < stt.NumFields(); i++ {
+				names[i] = stt.Field(i).Name()
+				fields[names[i]] = en.load(st, mkFieldAddr(addr, i, t, stt.Field(i).Type()), stt.Field(i).Type())
+			}
+			return mkStructLit(t, names, fields)
+		}
+		if arr, ok := t.Underlying().(*types.Array); ok && arr.Len() <= 64 {
+			elems := make([]Val, arr.Len())
+			for i := range elems {
+				elems[i] = en.load(st, mkIndexAddr(addr, intV(int64(i)), arr.Elem()), arr.Elem())
+			}
+			return mkArrayLit(t, elems)
+		}
+	}
 	if a, ok := db.(*AllocV); ok {
 		if _, d := st.dirty[a.Key()]; !d && !hasSymbolicIndex(addr) {
 			// aggregate partially written? build from parts is not needed: whole-struct loads of
@@ -1661,20 +1681,31 @@ func (p *Prog) constGlobals(en *Engine) map[string]cell {
 			gv.typ = g.Type()
 			gv.key = "&" + shortName(g.String())
 			et := g.Type().Underlying().(*types.Pointer).Elem()
-			if arr, ok := et.Underlying().(*types.Array); ok && arr.Len() <= 64 {
-				for i := int64(0); i < arr.Len(); i++ {
-					ea := mkIndexAddr(gv, intV(i), arr.Elem())
-					v := sub.load(fin, ea, arr.Elem())
-					if _, isC := v.(*ConstV); isC {
-						p.globalInit[ea.Key()] = cell{ea, v}
+			// leaves of arrays / structs of plain values, addressed individually
+			var leaves func(addr Val, tp types.Type, depth int)
+			leaves = func(addr Val, tp types.Type, depth int) {
+				if depth > 4 {
+					return
+				}
+				switch u := tp.Underlying().(type) {
+				case *types.Array:
+					if u.Len() > 64 {
+						return
+					}
+					for i := int64(0); i < u.Len(); i++ {
+						leaves(mkIndexAddr(addr, intV(i), u.Elem()), u.Elem(), depth+1)
+					}
+				case *types.Struct:
+					for i := 0; i < u.NumFields(); i++ {
+						leaves(mkFieldAddr(addr, i, tp, u.Field(i).Type()), u.Field(i).Type(), depth+1)
+					}
+				default:
+					if v, isC := sub.load(fin, addr, tp).(*ConstV); isC {
+						p.globalInit[addr.Key()] = cell{addr, v}
 					}
 				}
-				continue
 			}
-			v := sub.load(fin, gv, et)
-			if _, isC := v.(*ConstV); isC {
-				p.globalInit[gv.Key()] = cell{gv, v}
-			}
+			leaves(gv, et, 0)
 		}
 		for g := range mapCand {
 			gv := &GlobalV{G: g}
@@ -1910,13 +1941,21 @@ func (en *Engine) appendElem(st *State, s Val, i Val) (Val, bool) {
 			}
 			return append(b, x.Elems...), true
 		case *SliceV:
-			if a, ok := x.X.(*AllocV); ok && x.Lo == nil && x.Hi == nil {
+			if a, ok := x.X.(*AllocV); ok && (x.Lo == nil || isConstInt(x.Lo, 0)) {
 				if p, ok := a.Type().Underlying().(*types.Pointer); ok {
 					if arr, ok := p.Elem().Underlying().(*types.Array); ok && arr.Len() <= 32 {
 						if _, dirty := st.dirty[a.Key()]; dirty {
 							return nil, false
 						}
-						out := make([]Val, arr.Len())
+						n := arr.Len()
+						if x.Hi != nil {
+							k, isC := constInt(x.Hi)
+							if !isC || k > n {
+								return nil, false
+							}
+							n = k
+						}
+						out := make([]Val, n)
 						for j := range out {
 							out[j] = en.load(st, mkIndexAddr(a, intV(int64(j)), arr.Elem()), arr.Elem())
 						}
